@@ -1,6 +1,7 @@
 """ledger — candidate blocks (valid and with exactly one rule broken) on any stored parent of a
 random block tree; the real CoinState.add_block against the model's addBlock; monitors for
 C01 / C02 / C05 evaluated on the implementation's verdicts."""
+import hashlib
 import struct
 
 from . import kit, chain
@@ -101,8 +102,8 @@ def classes_for(focus):
            "reward_no_fee_tx", "known_header_swapped_body"]
     c05 = ["valid", "valid_multi", "pow_fails", "target_plus1", "target_minus1", "stale_target", "height_plus1",
            "height_minus1", "cb_height_wrong", "txs_reordered", "ts_equal_parent", "ts_before_parent", "ts_future_31", "ts_future_30",
-           "ev_summary_hash", "ev_chain_sample", "ev_block_hash", "ev_other_fork", "merkle_wrong", "txs_dropped",
-           "no_txs", "orphan", "known_header_swapped_body"]
+           "ev_summary_hash", "ev_chain_sample", "ev_block_hash", "ev_other_fork", "ev_forged_consistent", "merkle_wrong",
+           "txs_dropped", "no_txs", "orphan", "known_header_swapped_body"]
     return {"C01": c01, "C02": c02, "C05": c05, "all": sorted(set(c01 + c02 + c05))}[focus]
 
 
@@ -380,6 +381,20 @@ def make_candidate(cr, klass, parent_hash, now_holder):
             kw = dict(summary_hash=e.summary_hash, chain_sample=e.chain_sample, block_hash=e.block_hash)
             kw[f] = bytes(v)
             return Block(BlockHeader(b.header.summary, PowEvidence(**kw)), b.transactions)
+        return cr.craft(parent_hash, post=post), now
+    if klass == "ev_forged_consistent":
+        # evidence that is consistent in itself (sample and block hash derived, as prescribed, from the stated summary hash)
+        # but whose summary hash is not the scrypt hash of the summary; ground over nonces like an honest block
+        view = chain.view(cs, parent_hash)
+
+        def post(b):
+            fake = hashlib.sha256(b"forged" + b.header.pow_evidence.summary_hash).digest()
+            try:
+                ev = consensus.construct_pow_evidence_after_scrypt(fake, view, b.header.summary, b.header.summary.height,
+                                                                   b.transactions)
+            except Exception:
+                return b
+            return Block(BlockHeader(b.header.summary, ev), b.transactions)
         return cr.craft(parent_hash, post=post), now
     if klass == "ev_other_fork":
         others = [h for h in cs.heads.keys() if h != parent_hash and cs.block_by_hash[h].height >= parent.height]
